@@ -24,6 +24,23 @@ def is_int_ty(t):
     return t in INT_TYPES
 
 
+# When set, a loop comprehension only defines the elements its loop actually wrote (its index range is part of the
+# definition's guard).  Off by default: most rules read arrays at indices known to lie in the written range and the
+# range conditions make the terms explode; rules that evaluate a summary on a whole domain switch it on.
+STRICT_RANGES = False
+
+
+class strict_ranges:
+    def __enter__(self):
+        global STRICT_RANGES
+        self.old = STRICT_RANGES
+        STRICT_RANGES = True
+
+    def __exit__(self, *a):
+        global STRICT_RANGES
+        STRICT_RANGES = self.old
+
+
 class Arr:
     """Symbolic array: ordered list of definitions (kvar, guard, term); later ones win."""
 
@@ -69,7 +86,7 @@ class Arr:
             sub = dict(zip(kv, idx))
             g = guard.subs(sub) if guard is not None else S.true
             g = simplify_bool(g)
-            if len(self.ranges) >= 2 and pos in self.ranges:
+            if (len(self.ranges) >= 2 or STRICT_RANGES) and pos in self.ranges:
                 # several comprehensions may cover disjoint index ranges of this array: the range matters
                 g = sp.And(g, self.ranges[pos].subs(sub))
             rest = idx[len(kv):]
@@ -1413,6 +1430,22 @@ class Symx:
                     pc2 = pc.subs(isub) if pc is not S.true else S.true
                     # placeholders for entry values: the element as it was before the loop
                     if t2.has(ef):
+                        fixed = {}
+                        for eq_ in ([kv_guard] if isinstance(kv_guard, sp.Equality) else list(getattr(kv_guard, 'args', ()))):
+                            if isinstance(eq_, sp.Equality) and eq_.lhs in kvs:
+                                fixed[eq_.lhs] = eq_.rhs
+                            elif isinstance(eq_, sp.Equality) and eq_.rhs in kvs:
+                                fixed[eq_.rhs] = eq_.lhs
+                        own = tuple(fixed.get(kv_, kv_) for kv_ in kvs)
+                        foreign = [a_ for a_ in t2.atoms(sp.core.function.AppliedUndef) if a_.func == ef
+                                   and any(sp.simplify(x_ - y_) != 0 for x_, y_ in zip(a_.args[:len(kvs)], own))]
+                        if foreign:
+                            # the body reads an element that an earlier iteration of this loop may have written
+                            t2 = self.prefix_recurrence(t2, ef, kvs, foreign, base, lo, isub, i)
+                            if t2 is None:
+                                newarr = Arr(base.name + '@loop%d' % s['l'])
+                                newarr.length = base.length
+                                break
                         t2 = t2.replace(ef, lambda *ix: base.read(tuple(ix)))
                     newarr.defs.append((kvs, sp.And(kv_guard, pc2), t2))
                     newarr.ranges[len(newarr.defs) - 1] = inrange.subs(isub)
@@ -1457,6 +1490,29 @@ class Symx:
             # the counter outlives the loop: its exit value is max(lo, hi)
             st.env[var['id']] = sp.Max(lo, hi) if strip(s['cond'])['op'] != '!=' else hi
         return [st], []
+
+    def prefix_recurrence(self, t2, ef, kvs, foreign, base, lo, isub, i):
+        """A[k] = A[k-1] + c(k) written for k = i+s, i = lo.. : the element read was written by the previous iteration.
+        Returns the closed form base[lo+s-1] + Sum(c(j), j=lo+s..k) (still containing entry placeholders only for the
+        written element itself), or None when the dependence has another shape."""
+        if len(kvs) != 1 or len(foreign) != 1 or i not in isub:
+            return None
+        k = kvs[0]
+        f = foreign[0]
+        if len(f.args) != 1 or sp.simplify(f.args[0] - (k - 1)) != 0:
+            return None
+        sft = sp.simplify(k - isub[i])          # k = i + sft
+        if sft.has(k) or sft.has(i):
+            return None
+        c = sp.expand(t2 - f)
+        if c.has(ef):
+            return None
+        j = sp.Dummy('j', integer=True)
+        first = lo + sft
+        total = sp.Sum(c.subs(k, j), (j, first, k))
+        if not c.has(k):
+            total = c * (k - first + 1)
+        return base.read((first - 1,)) + total
 
     def accumulate_element(self, kvs, g, t, ef, base, i, lo, hi, pc):
         """A[fixed idx] = A[fixed idx] (+|*) delta(i) inside a counted loop -> Sum/Product."""
